@@ -723,7 +723,8 @@ class Executor:
                 starkw = None
                 for k, v in zip(e.keywords, kvals):
                     if k.arg is None:
-                        starkw = v
+                        # f(**a, **b): the maps are kept as a tuple for contracts that know how to merge them
+                        starkw = v if starkw is None else (("multi", *starkw[1:], v) if isinstance(starkw, tuple) and starkw and starkw[0] == "multi" else ("multi", starkw, v))
                     else:
                         kwargs[k.arg] = v
                 for sv in stars:
